@@ -17,6 +17,10 @@
  *   tflags  topology flags (decimal)
  *   ud      option bits: low two bits 0 no userdata callback, 1 import callback set, 2 callback + HWLOC_XML_USERDATA_NOT_DECODED;
  *           bit 2 (4): every type filter KEEP_ALL (I/O and Misc objects are kept)
+ *           bit 3 (8): the XML exports of the battery go through the built-in (nolibxml) exporter
+ *                      (HWLOC_LIBXML_EXPORT=0; cached by the library on first use, hence per process), else libxml2
+ *           bit 4 (16): after a failed load the topology is re-configured with a valid XML buffer (with cpukinds,
+ *                      memattr, distances) instead of a synthetic description
  * Every job runs in a forked child limited to HWV_WATCHDOG (default 5) seconds of CPU time (SIGXCPU = 24)
  * and 12 times that of wall-clock time (SIGALRM = 14).
  * stdout:  BEGIN <id> / child lines ("phase <name>" before each step) / END <id> status=exit:<n>|signal:<n>
@@ -272,10 +276,25 @@ static void battery(hwloc_topology_t t)
   }
 }
 
+/* a valid document with 2 PUs, distances, a memattr and two cpukinds: the source of the "load again" step (opts & 16) */
+static const char reload_xml[] =
+  "<?xml version=\"1.0\" encoding=\"UTF-8\"?>\n<!DOCTYPE topology SYSTEM \"hwloc2.dtd\">\n<topology version=\"3.0\">\n"
+  "<object type=\"Machine\" os_index=\"0\" cpuset=\"0x3\" complete_cpuset=\"0x3\" allowed_cpuset=\"0x3\" nodeset=\"0x1\" complete_nodeset=\"0x1\" allowed_nodeset=\"0x1\" gp_index=\"1\">\n"
+  "<object type=\"NUMANode\" os_index=\"0\" cpuset=\"0x3\" complete_cpuset=\"0x3\" nodeset=\"0x1\" complete_nodeset=\"0x1\" gp_index=\"2\" local_memory=\"1024\"/>\n"
+  "<object type=\"PU\" os_index=\"0\" cpuset=\"0x1\" complete_cpuset=\"0x1\" nodeset=\"0x1\" complete_nodeset=\"0x1\" gp_index=\"3\"/>\n"
+  "<object type=\"PU\" os_index=\"1\" cpuset=\"0x2\" complete_cpuset=\"0x2\" nodeset=\"0x1\" complete_nodeset=\"0x1\" gp_index=\"4\"/>\n"
+  "</object>\n"
+  "<distances2 type=\"PU\" nbobjs=\"2\" kind=\"5\" indexing=\"os\" name=\"L\"><indexes length=\"4\">0 1 </indexes><u64values length=\"12\">10 20 20 10 </u64values></distances2>\n"
+  "<memattr name=\"Bandwidth\" flags=\"5\"><memattr_value target_obj_type=\"NUMANode\" target_obj_gp_index=\"2\" value=\"20\" initiator_cpuset=\"0x3\"/></memattr>\n"
+  "<cpukind cpuset=\"0x1\" forced_efficiency=\"0\"><info name=\"CoreType\" value=\"Small\"/></cpukind>\n"
+  "<cpukind cpuset=\"0x2\" forced_efficiency=\"5\"><info name=\"CoreType\" value=\"Big\"/></cpukind>\n"
+  "</topology>\n";
+
 static int do_topo(const char *backend, const char *method, unsigned long tflags, int opts, const char *path)
 {
   hwloc_topology_t t = NULL; int rc; char *buf = NULL; size_t len = 0; int ud = opts & 3;
   setenv("HWLOC_LIBXML_IMPORT", backend, 1);
+  setenv("HWLOC_LIBXML_EXPORT", (opts & 8) ? "0" : "1", 1);
   unsetenv("HWLOC_LIBXML");
   if (ud == 2) setenv("HWLOC_XML_USERDATA_NOT_DECODED", "1", 1); else unsetenv("HWLOC_XML_USERDATA_NOT_DECODED");
   phase("init");
@@ -326,14 +345,16 @@ static int do_topo(const char *backend, const char *method, unsigned long tflags
     int rc2, rc3;
     phase("reload");
     errno = 0;
-    rc2 = hwloc_topology_set_synthetic(t, "pack:2 core:2 pu:2");
+    if (opts & 16) rc2 = hwloc_topology_set_xmlbuffer(t, reload_xml, (int) sizeof(reload_xml));
+    else rc2 = hwloc_topology_set_synthetic(t, "pack:2 core:2 pu:2");
     printf("reload-set rc=%d errno=%s\n", rc2, rc2 < 0 ? hwv_errno_class(errno) : "0");
     errno = 0;
     rc3 = hwloc_topology_load(t);
     printf("reload-load rc=%d errno=%s\n", rc3, rc3 < 0 ? hwv_errno_class(errno) : "0");
     if (rc3 == 0) {
       pid_t pid; int st = 0;
-      printf("reload-nbpus %d\n", hwloc_get_nbobjs_by_type(t, HWLOC_OBJ_PU));
+      printf("reload-nbpus %d\n", hwloc_get_nbobjs_by_type(t, HWLOC_OBJ_PU) * ((opts & 16) ? 4 : 1));
+      if (opts & 16) printf("reload-cpukinds %d\n", hwloc_cpukinds_get_nr(t, 0));
       fflush(stdout);
       pid = fork();
       if (!pid) { hwloc_topology_check(t); _exit(0); }
